@@ -216,6 +216,8 @@ func checkC13(c *Check) {
 		ruleBlockChecksumVerified(c, p, "R13.14")
 		c.RuleDoc["R13.14"] = "= R05.2: with block checksums declared, every accepting return of Uncompress lies behind the comparison of the recomputed XXH32 with the stored word, for stored and compressed blocks alike"
 		ruleBlockChecksumOnEveryPath(c, p, "R13.15")
+		ruleXXHZeroExtends(c, p, "R13.17")
+		c.RuleDoc["R13.17"] = "the hash code widens input bytes and words by zero extension only (no uint32(int8(b)))"
 		ruleObserversPureOf(c, p, "R13.16", []obsSpec{{"internal/xxh32", "XXHZero.Sum32"}}, 1)
 		c.RuleDoc["R13.16"] = "reading the digest does not change the running state (Sum32 stores to no field, directly, deferred or in a callee): a digest read twice, or read and then extended, stays the XXH32 of everything written"
 		c.RuleDoc["R13.15"] = "= R02.22: every path through Compress decides (and where declared stores) the block checksum"
